@@ -86,6 +86,7 @@ def evaluate(ctx, cases):
             times = (np.arange(n) - (n * c.get('shift', 0)) // 4) / fs
             if c.get('lab', 0):
                 df = df.copy(); df.index = (np.arange(len(df)) % 3) if c['lab'] == 1 else (np.arange(len(df)) + 5)
+            if c['seed'] % 4 == 2: df = implutil.user_columns(df)        # (columns a user added are carried along with their rows, untouched)
             try:
                 na, nb = ((None if a is None else np.float64(a)), (None if b is None else np.float64(b))) if c['seed'] % 3 == 0 else (a, b)      # numpy-scalar limits
                 got = implutil.twice(lambda: implutil.quiet(limit_df, df, (float(fs) if c['seed'] % 2 else fs), start=na, stop=nb, reset_indices=c['reset']), [df], 'limit_df'); gerr = None
@@ -138,6 +139,8 @@ def evaluate(ctx, cases):
                 if len(got) != len(rids):
                     info[tag] = 'kept %d rows, expected %d (start=%r stop=%r)' % (len(got), len(rids), p['a'], p['b']); return False
                 exp = df.iloc[rids]
+                if sorted(got.columns) != sorted(df.columns):
+                    info[tag] = 'the returned table has other columns than the given one'; return False
                 for col in df.columns:
                     ev = exp[col].values
                     if col in cols:
